@@ -25,7 +25,7 @@ _REAL = {
     "zeros_like": numpy.zeros_like, "eye": numpy.eye, "identity": numpy.identity,
     "array": numpy.array, "isclose": numpy.isclose, "allclose": numpy.allclose,
     "max": numpy.max, "min": numpy.min, "amax": numpy.amax, "amin": numpy.amin,
-    "argmin": numpy.argmin, "argmax": numpy.argmax, "linspace": numpy.linspace,
+    "argmin": numpy.argmin, "argmax": numpy.argmax, "real": numpy.real, "imag": numpy.imag, "linspace": numpy.linspace,
     "isreal": numpy.isreal, "eigh": numpy.linalg.eigh, "inv": numpy.linalg.inv,
     "scipy_inv": scipy.linalg.inv, "fft": numpy.fft.fft, "ifft": numpy.fft.ifft,
     "hfft": numpy.fft.hfft,
@@ -194,6 +194,26 @@ def p_min(a, axis=None, *args, **kw):
     return _REAL["min"](a, axis, *args, **kw)
 
 
+def p_real(a):
+    arr = numpy.asarray(a)
+    if arr.dtype == object:
+        out = numpy.empty(arr.shape, dtype=object)
+        for idx in numpy.ndindex(*arr.shape):
+            out[idx] = lift(arr[idx]).real
+        return out if out.ndim else out[()]
+    return _REAL["real"](a)
+
+
+def p_imag(a):
+    arr = numpy.asarray(a)
+    if arr.dtype == object:
+        out = numpy.empty(arr.shape, dtype=object)
+        for idx in numpy.ndindex(*arr.shape):
+            out[idx] = lift(arr[idx]).imag
+        return out if out.ndim else out[()]
+    return _REAL["imag"](a)
+
+
 def p_argmin(a, axis=None, *args, **kw):
     if core.has_sym(a) and axis is None:
         flat = list(numpy.asarray(a, dtype=object).flat)
@@ -342,6 +362,7 @@ def _build_patches():
         (numpy, "max", p_max), (numpy, "amax", p_max),
         (numpy, "min", p_min), (numpy, "amin", p_min),
         (numpy, "argmin", p_argmin), (numpy, "argmax", p_argmax),
+        (numpy, "real", p_real), (numpy, "imag", p_imag),
         (numpy, "linspace", p_linspace), (numpy, "isreal", p_isreal),
         (numpy.linalg, "eigh", p_eigh), (numpy.linalg, "inv", p_inv),
         (scipy.linalg, "inv", p_inv),
